@@ -438,6 +438,22 @@ impl<'a, T: Read + Write + Seek> PointCloudWriter<'a, T> {
                 ))?
             }
 
+            // Ensure that integer values are inside the range defined by the prototype entry
+            match (&p.data_type, value) {
+                (RecordDataType::Integer { min, max }, RecordValue::Integer(int))
+                | (
+                    RecordDataType::ScaledInteger { min, max, .. },
+                    RecordValue::ScaledInteger(int),
+                ) => {
+                    if int < min || int > max {
+                        Error::invalid(format!(
+                            "Value {int} at index {i} is outside of the range {min}..{max} of the prototype"
+                        ))?
+                    }
+                }
+                _ => {}
+            }
+
             // Update cartesian bounds
             if p.name == RecordName::CartesianX
                 || p.name == RecordName::CartesianY
